@@ -49,6 +49,7 @@ type sg struct {
 	last  []prop // properties of the node emitted last
 	piped bool   // the previous token was '|': the next identifier names a node
 	cur   string // node (or alert.handler) whose properties are being written
+	fromWhere bool // the from() node being written already has a .where()
 	law   string // Pipeline unit: "json" | "tick"; the generator avoids what that round trip is known to lose (counted)
 }
 
@@ -98,6 +99,7 @@ func (s *sg) id(n string) {
 	if s.piped {
 		s.piped = false
 		s.cur = n
+		s.fromWhere = false
 	}
 	if s.stmt {
 		s.stmt = false
@@ -405,6 +407,7 @@ var unsupported = map[string]map[string]string{
 		"+groupBy.quiet": "", "+alert.quiet": "", "+barrier.quiet": "", "+combine.quiet": "", "+httpOut.quiet": "", "+httpPost.quiet": "", "+log.quiet": "", "+sideload.quiet": "",
 	},
 	"tick": {
+		"~combined-lambda": "K3 format of an AST built without the parser: lambdas combined by the pipeline itself (deadman(…, lambda), repeated from().where()) are joined with AND without parentheses",
 		"alert.email.toTemplates": "T9 pipeline/tick AST.Build fails on an email handler with toTemplates (unsupported literal type []string)",
 		"alert.discord": classT2 + "alert discord handler", "alert.category": classT2 + "alert.category",
 		"alert.opsGenie2.recoveryAction": classT2 + "opsGenie2.recoveryAction", "alert.opsGenie2.details": classT2 + "opsGenie2.details",
@@ -443,6 +446,13 @@ func (s *sg) prop(p prop) {
 	key := s.cur + "." + p.name
 	if s.avoided(key) {
 		return
+	}
+	if key == "from.where" {
+		// a second .where() on the same from() is AND-ed onto the first one by the pipeline
+		if s.fromWhere && s.avoided("~combined-lambda") {
+			return
+		}
+		s.fromWhere = true
 	}
 	s.dot()
 	s.call(p.name, p.args)
@@ -987,7 +997,7 @@ func (s *sg) node(edge string) (out string) {
 		s.argFloat()
 		s.o.comma()
 		s.argDur()
-		if s.pick(2, "deadmanL") == 0 {
+		if s.pick(2, "deadmanL") == 0 && !s.avoided("~combined-lambda") {
 			s.o.comma()
 			s.argLambda("bool")
 		}
@@ -1140,6 +1150,7 @@ func (s *sg) chain() {
 		if len(nv.props) > 0 && s.pick(3, "propStmt") == 0 {
 			// a property set on a node held in a var: w.period(10s)
 			s.cur = nv.kind
+			s.fromWhere = true // unknown: assume the node already has one
 			s.someProps(nv.props, 2)
 			s.o.label("chain:property-on-var")
 		}
